@@ -102,6 +102,21 @@ class C13(XsProp):
             pre = 'xs limits 3000 200 -'
             cs.append('%s | clone | push %s | eval %s | stack | use 1 | push %s | eval %s | stack' % (
                 pre, cells.fmt(('V', vec)), hexsrc(w), cells.fmt(('V', tvec)), hexsrc(w)))
+        # control words look through tags too: conditions, case selectors, loop bounds, assertions
+        ctl = [('{C} if 10 else 20 then', ['N', 'T', 'F']), ('0 begin 1 + dup 3 > {C} or until', ['N', 'F']), ('{C} assert 5', ['T', 'F', 'N']),
+               ('{C} not', ['T', 'F']), ('{C} case 1 of 10 endof 2 of 20 endof 30 endcase', ['I1', 'I2', 'I7', 'S61']),
+               ('1 case {C} of 10 endof 30 endcase', ['I1', 'I2']), ('{C} 0 do I loop', ['I0', 'I2']), ('3 {C} do I loop', ['I0', 'I3']),
+               ('{C} 7 assert-eq', ['I7', 'I8']), ('7 {C} assert-eq', ['I7', 'I8']), ('[ 1 2 3 ] {C} nth', ['I0', 'I-1']), ('{C} nil? ', ['N', 'I1']),
+               ('{C} 1 equal?', ['I1', 'I2']), ('[ {C} ] [ 1 ] equal?', ['I1']), ('5 {C} collect', ['I1', 'I0']), ('{C} >real', ['I3']),
+               ('|ff 00| open-bitstr {C} bits', ['I4']), ('|ff 00| open-bitstr {C} seek offset', ['I8']), ('{C} length', ['S6162', 'V(I1,I2)'])]
+        for tmpl, vals in ctl:
+            for v in vals:
+                plain = cells.parse(v)
+                for tag in ([(('S', b'k'), ('I', 1))], [], [(('S', b'#fmt'), ('I', 0x110))]):
+                    tg = ('G', plain, tag)
+                    a = 'xs limits 3000 200 - | clone | push %s | eval %s | stack | use 1 | push %s | eval %s | stack' % (
+                        cells.fmt(plain), hexsrc('var cc ' + tmpl.replace('{C}', 'cc')), cells.fmt(tg), hexsrc('var cc ' + tmpl.replace('{C}', 'cc')))
+                    cs.append(a)
         # the tag words behave as a map attached to the value, without altering it
         for _ in range(60 if tier == 'quick' else 1500):
             v = cells.rand_cell(rng, tags=0.3)
